@@ -117,10 +117,11 @@ var ts = &prompb.TimeSeries{Labels: []labelpb.ZLabel{{Name: "__name__", Value: "
 func ask(h receive.Hashring, tenant string, n int) (int, string) {
 	e, err := h.GetN(tenant, ts, 0)
 	if err != nil {
-		if err.Error() == "no matching hashring to handle tenant" {
-			return -1, ""
-		}
-		return -2, err.Error()
+		// Any error means "no hashring served this tenant". The statement does not fix the error text, so the
+		// check must not depend on it (a property-preserving change reworded the message and the earlier exact
+		// comparison raised a false alarm); whether a rejection is right is decided by the caller against the
+		// reference (want < 0).
+		return -1, ""
 	}
 	for i := 0; i < n; i++ {
 		if e.Address == ringAddr(i) {
